@@ -328,6 +328,30 @@ def check_case(ctx, h, w, crange, vrange, pairs, form='fast'):
                 math.isclose(b, total, rel_tol=1e-9)):
             rec.fail(f'law:commute:{tag}', case,
                      f'SUMIFS={total!r} but reversed {b!r}')
+    # text criteria compare case-insensitively: neither the case of the text
+    # cells nor the case of the criterion may change the selection (also for
+    # "op text" criteria, whose ordering itself is not modelled here)
+    if form == 'fast' and klass(count) == 'number' and any(
+            isinstance(c, str) and c.swapcase() != c for _, c in pairs):
+        def swapped(v):
+            return v.swapcase() if klass(v) == 'text' else v
+        for what, other in (
+                ('cells', {k: (swapped(v) if k[0] in COLS + WCOLS else v)
+                           for k, v in cells.items()}),
+                ('criteria', {k: (swapped(v) if k[0] == 'M' else v)
+                              for k, v in cells.items()})):
+            try:
+                got = env.eval(f'=COUNTIFS({args})', other)
+            except Exception as exc:
+                rec.fail(f'COUNTIFS:raises:{exc_key(exc)}:{etag}', case,
+                         f'case-swapped {what}: {exc!r}'[:300])
+                continue
+            if got != count:
+                rec.fail(f'law:case-insensitive:{what}:{tag}', case,
+                         f'COUNTIFS({args}) crit={[c for _, c in pairs]} '
+                         f'over {crange} = {count!r}, with the case of the '
+                         f'{what} swapped = {got!r}')
+        rec.label('law:case-insensitive')
     # size mismatch -> #VALUE!
     if h * w > 1:
         short = rng(VCOLS, h - 1, w) if h > 1 else rng(VCOLS, h, w - 1)
@@ -444,6 +468,13 @@ FIXED = [
 ]
 
 
+PURITY_TEMPLATES = ['=COUNTIF(A1:B1,C1)',
+                    '=SUMIF(A1:B1,C1)',
+                    '=COUNTIFS(A1:B1,C1)',
+                    '=COUNTIF(A1:B1,"="&C1)',
+                    '=COUNTIF(A1:B1,"<>"&C1)']
+
+
 def shards(tier, seed):
     out = [dict(kind='fixed')]
     n_h = 14 if tier == 'quick' else 16
@@ -452,6 +483,7 @@ def shards(tier, seed):
                         n=600 if tier == 'quick' else 15000))
     out.append(dict(kind='workbook', seed=seed * 1000 + 77,
                     n=60 if tier == 'quick' else 1500))
+    out.append(dict(kind='purity'))
     return out
 
 
@@ -469,6 +501,9 @@ def _body(rec, ctx, form='fast'):
 
 
 def run_shard(shard, rec):
+    if shard['kind'] == 'purity':
+        from vlib import purity
+        return purity.run(rec, ID, PURITY_TEMPLATES)
     kind = shard['kind']
     ctx = (rec, FastEnv())
     if kind == 'fixed':
@@ -483,6 +518,9 @@ def run_shard(shard, rec):
 
 
 def replay(case, rec):
+    from vlib import purity
+    if purity.is_case(case):
+        return purity.replay(rec, ID, case)
     ctx = (rec, FastEnv())
     if isinstance(case, list):
         h, w, crange, vrange, pairs = case
